@@ -44,6 +44,20 @@ impl NodeDrive {
         if let Ok(entry) = entry {
             let full_name = entry.file_name().into_string().unwrap();
             if full_name.ends_with(DB_KEYS_FILE_NAME) {
+                // The keys file is created before the values file: a process killed during the
+                // very first snapshot of a database leaves only the keys file, nothing of that
+                // database was completely stored yet
+                let db_name = db_name_from_file_name(&full_name.replace(".keys", ""));
+                let (_, values_file_name) =
+                    get_key_value_files_name_from_file_name(file_name_from_db_name(&db_name));
+                if !Path::new(&values_file_name).exists() {
+                    log::warn!(
+                        "Values file {} does not exist will ignore the database {}",
+                        values_file_name,
+                        db_name
+                    );
+                    return;
+                }
                 let (db, _) = create_db_from_file_name(&full_name, &dbs);
                 dbs.add_database(db);
             } else {
